@@ -416,6 +416,7 @@ pub fn drive(space: &dyn Space, rep: &mut Report, wall_budget: Duration) -> Chun
     // Before it is reported, the witness case is re-executed on its own twice more: a hang must
     // blow the deadline every time (an overloaded host can starve one run), a death must recur.
     let mut unconfirmed_hangs = 0u64;
+    let mut unconfirmed_deaths = 0u64;
     let mut confirmed: Vec<Viol> = vec![];
     for v in std::mem::take(&mut all.viols) {
         let fate = v.sig.iter().find(|(k, _)| k == "fate").map(|(_, x)| x.clone()).unwrap_or_default();
@@ -426,7 +427,11 @@ pub fn drive(space: &dyn Space, rep: &mut Report, wall_budget: Duration) -> Chun
             } else if fate == "hang" {
                 unconfirmed_hangs += v.count;
             } else {
-                rep.machinery_error(format!("case {} ({:?}) killed its worker but not on re-execution", v.idx, v.sig));
+                // a worker death that does not recur when the case runs on its own (twice) is not a
+                // witness: on an oversubscribed host workers are also killed from outside (OOM
+                // killer). Counted and printed, never a verdict and never a reason to fail the run.
+                unconfirmed_deaths += v.count;
+                eprintln!("note: case {} ({:?}) killed its worker once but not on two re-executions", v.idx, v.sig);
             }
         } else {
             confirmed.push(v);
@@ -434,6 +439,7 @@ pub fn drive(space: &dyn Space, rep: &mut Report, wall_budget: Duration) -> Chun
     }
     all.viols = confirmed;
     rep.set("deadline_overruns_not_reproduced", json!(unconfirmed_hangs));
+    rep.set("process_deaths_not_reproduced", json!(unconfirmed_deaths));
     for v in &all.viols {
         let sig: Vec<(&str, String)> = v.sig.iter().map(|(k, x)| (k.as_str(), x.clone())).collect();
         rep.violation(&sig, v.what.clone(), v.case.clone());
